@@ -26,6 +26,7 @@ func propC02() *Property {
 			{ID: "R02.6", Floor: 6, Text: "retransmission: timer-gated scan, no window, timeout trigger present, duplicate-ack trigger bounded per segment", Run: r02_6},
 			{ID: "R02.7", Floor: 5, Text: "only data is deferred during open; open response establishes and wakes the sender", Run: r02_7},
 			{ID: "R02.9", Floor: 6, Text: "the congestion window cannot close: every write is the minimum or is clamped by inRange; positive constant minimum; sendWindowSize inputs", Run: r02_9},
+			{ID: "R02.11", Floor: 3, Text: "every segment Session.input accepts refreshes lastRXTime before it is dispatched (acks and heartbeats keep an idle direction alive)", Run: r02_11},
 			{ID: "R02.10", Floor: 1, Text: "the datagram receive buffer holds the largest datagram a conforming peer may send (the maximum supported MTU), whatever the local MTU", Run: r02_10},
 			{ID: "R02.8", Floor: 8, Text: "datagram authentication and discard (shared with R04.1, R04.5)", Run: func(c *RC) { r04_1(c); r04_5(c) }},
 		},
@@ -1131,5 +1132,57 @@ func r02_10(c *RC) {
 	})
 	if n == 0 {
 		c.Undecided("receive-buffer-covers-max-mtu", fn.Pos(), "no ReadFrom on the datagram socket found")
+	}
+}
+
+
+// r02_11: liveness of an idle direction. The datagram underlay sweeps a
+// session whose lastRXTime is older than idleSessionTimeout; acks and
+// heartbeats exist so that an end that only sends (a one-way upload, an idle
+// connection) still hears from its peer. Every segment Session.input accepts
+// must therefore refresh lastRXTime, whatever its kind: the refresh precedes
+// each dispatch (inputData / inputAck / inputClose) on every path.
+func r02_11(c *RC) {
+	p := c.P
+	fn := p.Fn(protoPkg, "Session.input")
+	lr := p.Field(protoPkg, "Session", "lastRXTime")
+	if fn == nil || lr == nil {
+		c.Anchor("Session.input / Session.lastRXTime")
+		return
+	}
+	var stores []ssa.Instruction
+	for _, f := range withHelpers(p, fn, 1) {
+		instrs(f, func(_ *ssa.BasicBlock, _ int, in ssa.Instruction) {
+			if n, _ := atomicCallOn(in, lr); n == "Store" && f == fn {
+				stores = append(stores, in)
+			}
+		})
+	}
+	n := 0
+	instrs(fn, func(_ *ssa.BasicBlock, _ int, in ssa.Instruction) {
+		cl, ok := in.(*ssa.Call)
+		if !ok {
+			return
+		}
+		name := calleeName(cl)
+		if name != "inputData" && name != "inputAck" && name != "inputClose" {
+			return
+		}
+		n++
+		key := "rx-time-refreshed-before:" + name
+		good := false
+		for _, st := range stores {
+			if instrDominates(st, in) {
+				good = true
+			}
+		}
+		if good {
+			c.OKH(key, in.Pos(), "lastRXTime.Store(now) dominates the dispatch")
+		} else {
+			c.Bad(key, in.Pos(), "a segment handed to %s does not refresh lastRXTime on every path: an end that receives only this kind of segment (acks and heartbeats during a one-way transfer, or an idle connection) is swept as idle after %s although its peer is alive, and the transfer is cut", name, "idleSessionTimeout")
+		}
+	})
+	if n == 0 {
+		c.Undecided("rx-time-refreshed-before", fn.Pos(), "Session.input dispatches to none of inputData / inputAck / inputClose")
 	}
 }
